@@ -26,7 +26,7 @@ func init() {
 }
 
 func genProofRoundtrip(seed uint64, run int) *Scenario {
-	systems := []string{"schnorr-ec", "schnorr-ed", "schnorr-v", "dln", "paillier-key", "mod", "fac", "alice", "bob", "bob-wc"}
+	systems := []string{"schnorr-ec", "schnorr-ed", "schnorr-v", "dln", "paillier-key", "mod", "fac", "alice", "bob", "bob-wc", "schnorr-v-ed"}
 	wits := []string{"zero", "one", "qm1", "rand", "lz"}
 	sessions := []string{"empty", "short", "long"}
 	return &Scenario{Check: "C10", Kind: "proof-roundtrip", Seed: seed, Run: run, P: map[string]interface{}{
@@ -121,7 +121,11 @@ func driveProofRoundtrip(rc *RunCtx) {
 			if err != nil || !(&schnorr.ZKProof{Alpha: al, T: tt}).Verify(session, X) {
 				fail = "honest proof rejected after the wire round trip"
 			}
-		case "schnorr-v":
+		case "schnorr-v", "schnorr-v-ed":
+			ec, q := ec, q
+			if system == "schnorr-v-ed" {
+				ec, q = tss.Edwards(), Ed.n
+			}
 			s, l := witness(q), witness(q)
 			if s.Sign() == 0 || l.Sign() == 0 {
 				l = big.NewInt(1)
